@@ -818,7 +818,7 @@ fn run_op(cache: &mut Cache, op: &OpKind) -> Ret {
             cache.clear();
             Ret::Unit
         }
-        OpKind::It { kind, calls, forget, unwind } => {
+        OpKind::It { kind, calls, forget, unwind, via } => {
             let mut items = Vec::new();
             match kind {
                 IterKind::Iter => {
@@ -862,6 +862,8 @@ fn run_op(cache: &mut Cache, op: &OpKind) -> Ret {
                         std::mem::forget(it);
                     } else if *unwind {
                         unwind_holding(it);
+                    } else {
+                        consume_via(it, *via);
                     }
                 }
                 _ => unreachable!(),
@@ -1107,6 +1109,21 @@ fn parse_debug(s: &str) -> Vec<Option<(KD, VD)>> {
     out
 }
 
+/// The rest of an owning iterator consumed through one of the adapter methods a caller reaches (`nth`, `skip`,
+/// `count`, `last`, `nth_back` — provided by the traits from `next`/`next_back` unless the crate overrides them),
+/// then the iterator is dropped: whatever way, every entry it still owned is dropped exactly once.
+fn consume_via<T, I: DoubleEndedIterator<Item = T>>(mut it: I, via: u8) {
+    match via {
+        1 => { let _ = it.nth(usize::MAX); }
+        2 => { let _ = it.by_ref().skip(usize::MAX / 2).next(); }
+        3 => { let _ = it.by_ref().count(); }
+        4 => { let _ = it.by_ref().last(); }
+        5 => { let _ = it.nth_back(usize::MAX); }
+        _ => {}
+    }
+    drop(it);
+}
+
 pub struct ConsumerPanic;
 
 /// The consumer of an iterator panics while holding it: the iterator is dropped *during unwinding*
@@ -1121,8 +1138,8 @@ fn unwind_holding<T>(it: T) {
 }
 
 fn run_consuming(cache: Cache, op: &OpKind, panic_at: Option<(Kind, u64)>) -> (Ret, OpLog, bool) {
-    let (kind, calls, forget, unwind) = match op {
-        OpKind::It { kind, calls, forget, unwind } => (*kind, calls.clone(), *forget, *unwind),
+    let (kind, calls, forget, unwind, via) = match op {
+        OpKind::It { kind, calls, forget, unwind, via } => (*kind, calls.clone(), *forget, *unwind, *via),
         _ => unreachable!(),
     };
     begin_op(panic_at);
@@ -1140,6 +1157,8 @@ fn run_consuming(cache: Cache, op: &OpKind, panic_at: Option<(Kind, u64)>) -> (R
                     std::mem::forget(it);
                 } else if unwind {
                     unwind_holding(it);
+                } else {
+                    consume_via(it, via);
                 }
             }
             IterKind::IntoK => {
@@ -1153,6 +1172,8 @@ fn run_consuming(cache: Cache, op: &OpKind, panic_at: Option<(Kind, u64)>) -> (R
                     std::mem::forget(it);
                 } else if unwind {
                     unwind_holding(it);
+                } else {
+                    consume_via(it, via);
                 }
             }
             IterKind::IntoV => {
@@ -1166,6 +1187,8 @@ fn run_consuming(cache: Cache, op: &OpKind, panic_at: Option<(Kind, u64)>) -> (R
                     std::mem::forget(it);
                 } else if unwind {
                     unwind_holding(it);
+                } else {
+                    consume_via(it, via);
                 }
             }
             _ => unreachable!(),
